@@ -911,6 +911,18 @@ def cmd_signs(a, cell=None):
         out += chk_eq(P, res.get('is_one'), a == 1, 'is_one')
         out += chk_big(P, res.get('set_zero'), 0, 'set_zero', 'I')
         out += chk_big(P, res.get('set_one'), 1, 'set_one', 'I')
+        out += chk_big(P, res.get('neg_vs'), -a, '-x (stale capacity)', 'I')
+        out += chk_big(P, res.get('abs_s'), abs(a), 'abs (stale capacity)', 'I')
+        ps = res.get('parts_s')
+        if ps is PANIC:
+            out.append(Problem({P, 'C14'}, 'into_parts (stale capacity) panicked', ''))
+        else:
+            out += chk_eq(P, ps[0], sg, 'into_parts sign (stale capacity)')
+            out += chk_big(P, ps[1], abs(a), 'into_parts magnitude (stale capacity)', 'U')
+        out += chk_big(P, res.get('set_zero_s'), 0, 'set_zero (stale capacity)', 'I')
+        out += chk_big(P, res.get('set_one_s'), 1, 'set_one (stale capacity)', 'I')
+        out += chk_eq(P, res.get('is_zero_s'), a == 0, 'is_zero (stale capacity)')
+        out += chk_eq(P, res.get('is_one_s'), a == 1, 'is_one (stale capacity)')
         return out
 
     return Cmd(line, check, cell=cell, prop='C19')
@@ -928,6 +940,10 @@ def cmd_usigns(a, cell=None):
         out += chk_eq(P, res.get('is_one'), a == 1, 'is_one')
         out += chk_big(P, res.get('set_zero'), 0, 'set_zero', 'U')
         out += chk_big(P, res.get('set_one'), 1, 'set_one', 'U')
+        out += chk_big(P, res.get('set_zero_s'), 0, 'set_zero (stale capacity)', 'U')
+        out += chk_big(P, res.get('set_one_s'), 1, 'set_one (stale capacity)', 'U')
+        out += chk_eq(P, res.get('is_zero_s'), a == 0, 'is_zero (stale capacity)')
+        out += chk_eq(P, res.get('is_one_s'), a == 1, 'is_one (stale capacity)')
         return out
 
     return Cmd(line, check, cell=cell, prop='C19')
